@@ -39,7 +39,7 @@ func ToNumber(v Value) (int64, float64, NumberType) {
 		return 0, v.AsFloat(), IsFloat
 	case string:
 		s := v.AsString()
-		return StringToNumber(strings.TrimSpace(s))
+		return StringToNumber(s)
 	}
 	return 0, 0, NaN
 }
@@ -54,7 +54,7 @@ func ToNumberValue(v Value) (Value, NumberType) {
 		return v, IsFloat
 	}
 	if s, ok := v.TryString(); ok {
-		n, f, tp := StringToNumber(strings.TrimSpace(s))
+		n, f, tp := StringToNumber(s)
 		switch tp {
 		case IsInt:
 			return IntValue(n), IsInt
@@ -137,10 +137,56 @@ func stringToInt(s string) (int64, NumberType) {
 	return 0, NaN
 }
 
+// validNumeral reports whether s is a Lua numeral with an optional sign:
+// decimal digits with optional '.', optional exponent e[+-]digits, or 0x hex
+// digits with optional '.', optional exponent p[+-]digits; at least one digit.
+// Anything strconv accepts beyond that (underscores, inf, nan, a second sign) is
+// not a Lua number.
+func validNumeral(s string) bool {
+	i := 0
+	if i < len(s) && (s[i] == '+' || s[i] == '-') {
+		i++
+	}
+	isDigit := func(c byte) bool { return '0' <= c && c <= '9' }
+	exp := "eE"
+	if i+1 < len(s) && s[i] == '0' && (s[i+1] == 'x' || s[i+1] == 'X') {
+		i += 2
+		exp = "pP"
+		isDigit = func(c byte) bool {
+			return '0' <= c && c <= '9' || 'a' <= c && c <= 'f' || 'A' <= c && c <= 'F'
+		}
+	}
+	digits := 0
+	for ; i < len(s) && isDigit(s[i]); i++ {
+		digits++
+	}
+	if i < len(s) && s[i] == '.' {
+		for i++; i < len(s) && isDigit(s[i]); i++ {
+			digits++
+		}
+	}
+	if digits == 0 {
+		return false
+	}
+	if i < len(s) && strings.IndexByte(exp, s[i]) >= 0 {
+		i++
+		if i < len(s) && (s[i] == '+' || s[i] == '-') {
+			i++
+		}
+		start := i
+		for ; i < len(s) && '0' <= s[i] && s[i] <= '9'; i++ {
+		}
+		if i == start {
+			return false
+		}
+	}
+	return i == len(s)
+}
+
 func StringToNumber(s string) (n int64, f float64, tp NumberType) {
-	s = strings.TrimSpace(s)
+	s = strings.Trim(s, " \t\n\v\f\r") // Lua's isspace, not Unicode's
 	var err error
-	if len(s) == 0 {
+	if !validNumeral(s) {
 		tp = NaN
 		return
 	}
@@ -148,7 +194,7 @@ func StringToNumber(s string) (n int64, f float64, tp NumberType) {
 	// If the string starts with -?0[xX] then it may be an hex number
 	if s[0] == '+' {
 		s = s[1:]
-	} else if s[0] == '-' || s[0] == '+' {
+	} else if s[0] == '-' {
 		i0++
 	}
 	var isHex = len(s) >= 2+i0 && s[i0] == '0' && (s[i0+1] == 'x' || s[i0+1] == 'X')
